@@ -11,7 +11,8 @@ RULE = ("Contract monitor over the five rating classes: for pairs (a, b) of one 
         "{default 3, 0, 1, 2.5}; a==b iff mu and sigma both equal (and != its negation); sorted() of 2-50 ratings must be "
         "ordered by ordinal; foreign operands (ratings of the four other models, int, float, str, None, tuple, list, a "
         "model object) must raise ValueError for the four order operators in both operand orders and be unequal under ==. "
-        "The pair pool is engineered so that ordinals are exactly equal with different (mu, sigma) (dyadic rationals), "
+        "Every third pair is re-checked after in-place changes of sigma and mu on the same objects (rate() itself "
+        "updates ratings in place), so a stale cached ordinal is visible. The pair pool is engineered so that ordinals are exactly equal with different (mu, sigma) (dyadic rationals), "
         "equal with equal (mu, sigma), 1 ulp apart, negative, zero, and random. Non-trivial: a pair with exactly equal "
         "ordinals or a foreign operand; distinct by (class, values, operand kind).")
 ASSUMPTIONS = ["ordinal(z) is evaluated as mu - z*sigma in double precision"]
@@ -22,7 +23,7 @@ OPS = {"<": operator.lt, "<=": operator.le, ">": operator.gt, ">=": operator.ge}
 def floors(tier):
     q = tier == "quick"
     return {"order-op": 200000 if q else 4000000, "equal-ordinals": 20000 if q else 400000, "foreign": 20000 if q else 400000,
-            "eq": 50000 if q else 1000000, "ordinal": 50000 if q else 1000000, "sorted": 1500 if q else 30000}
+            "eq": 50000 if q else 1000000, "after-mutation": 50000 if q else 1000000, "ordinal": 50000 if q else 1000000, "sorted": 1500 if q else 30000}
 
 
 def generate(ctx):
@@ -123,6 +124,30 @@ def probe_pairs(ctx, payload):
             ctx.violation("eq", "pairs", payload, dict(pair=[pa, pb], eq=repr(ge), ne=repr(gn), want_eq=want_eq), model_name,
                           f"{kind}/{'equal-ordinals' if equal_ord else 'different'}")
         ctx.case([model_name, pa, pb, "pair"], equal_ord)
+        # the same objects after in-place changes (rate() itself updates ratings in place): ordinal() and the operators
+        # must follow the CURRENT mu and sigma
+        if idx % 3 == 0:
+            for attr, newval in (("sigma", pa[1] + 1.25), ("mu", pa[0] - 2.5), ("sigma", pb[1])):
+                setattr(a, attr, newval)
+                ctx.ev("after-mutation")
+                try:
+                    want = a.mu - 3.0 * a.sigma
+                    got = a.ordinal()
+                    if abs(got - want) > 2 * math.ulp(max(abs(want), abs(a.mu), abs(3.0 * a.sigma), 5e-324)):
+                        ctx.violation("after-mutation/ordinal", "pairs", payload,
+                                      dict(start=pa, changed=attr, to=newval, ordinal=got, want=want), model_name, kind)
+                        break
+                    ob2 = b.ordinal()
+                    for sym, fn in OPS.items():
+                        if fn(a, b) is not fn(want, ob2) or fn(b, a) is not fn(ob2, want):
+                            ctx.violation(f"after-mutation/{sym}", "pairs", payload,
+                                          dict(start=[pa, pb], changed=attr, to=newval), model_name, kind)
+                            break
+                    if (a == b) is not (a.mu == b.mu and a.sigma == b.sigma):
+                        ctx.violation("after-mutation/eq", "pairs", payload, dict(start=[pa, pb], changed=attr, to=newval), model_name, kind)
+                except Exception as e:  # noqa: BLE001
+                    ctx.violation("after-mutation/exception", "pairs", payload, dict(exc=repr(e)), model_name, kind)
+                    break
         # foreign operands (a few per pair to keep the cost down)
         if idx % 5 == 0:
             for label, other in _foreign(Ms, model_name, pa[0], pa[1]):
